@@ -12,6 +12,9 @@ func c18Check(postAction, act Action, err error) {
 	}
 	vCover("run-succeeded")
 	vAssert(act != "", "successful-run-never-yields-empty-action")
+	if c18OnlyNonEmpty {
+		return // whether this kind's post function is consulted at all is not this property's business
+	}
 	if postAction == "" {
 		vCover("post-empty")
 		vAssert(act == DefaultAction, "empty-action-reported-as-default")
@@ -75,10 +78,21 @@ func c18Batch(n, c int, stop bool, act Action) *BatchNodeBuilder {
 	return b
 }
 
+var c18OnlyNonEmpty bool
+
 // c18Node builds the node kind under test (forks on the kind; the action stays symbolic)
 func c18Node(act Action) Node {
-	kinds := 14
+	kinds := 15
 	switch vChoice("kind", kinds) {
+	case 14:
+		// a batch node given a plain (non-batch) post function as constructor option and no batch
+		// post function: whatever the library makes of that function, a successful run reports a
+		// non-empty action
+		vCover("kind-batch-with-plain-post-option")
+		c18OnlyNonEmpty = true
+		return NewBatchNode(
+			WithPrepFuncAny(func(ctx context.Context, s *SharedStore) (any, error) { return []any{1, 2}, nil }),
+			WithPostFuncAny(func(ctx context.Context, s *SharedStore, p, e any) (Action, error) { return act, nil }))
 	case 12:
 		// payloads that happen to be of the library's own Action type (any string, also empty) are
 		// payloads: only post decides the action
